@@ -43,7 +43,8 @@ PROVED = ('for every swarm size, URI list (with repetitions), argument dictionar
           'touching a member; over any history of actions on one swarm with re-used / aliased argument dictionaries the '
           'caller\'s objects are unchanged and every member gets a fresh list = own connection + own entry; over any '
           'history of runs in one process the error chained by run k is one of run k\'s errors (fresh reporter per run); '
-          'a shared error list is refuted; the members an action runs for do not depend on the per-member link state.')
+          'a shared error list is refuted; whatever cause links the raised error objects carry, the chained error is one of the '
+          'raised objects (root-cause reporting refuted); the members an action runs for do not depend on the per-member link state.')
 NOT_PROVED = ('what open_link/close_link do inside SyncCrazyflie (C02); byte-code level preemption inside one statement; '
               'the helper actions built on parallel_safe (get_estimated_positions, reset_estimators).')
 
@@ -795,7 +796,8 @@ def gen_process(rng):
     for _ in range(rng.randrange(3, 8)):
         si = rng.randrange(len(swarms))
         runs.append({'swarm': si, 'call': rng.choice(['parallel_safe'] * 4 + ['open_links'] * 2 + ['parallel', 'sequential']),
-                     'failing': [u for u in swarms[si] if rng.random() < p_fail]})
+                     'failing': [u for u in swarms[si] if rng.random() < p_fail],
+                     'chain': rng.choice([['none', 0], ['explicit', 1], ['explicit', 2], ['explicit', 3], ['implicit', 1], ['implicit', 2]])})
     return {'op': 'process', 'swarms': swarms, 'runs': runs}
 
 
@@ -832,10 +834,29 @@ def run_process(case):
     def action(scf, *a):
         if scf.uri in cur['failing']:
             e = _Err(cur['pos'][id(scf)])
+            style, depth = cur.get('chain') or ['none', 0]
+            inner = None
+            for d in range(depth):                          # inner errors: caught inside the action, never raised by it
+                nxt = ValueError('inner error %d of member %d' % (d, cur['pos'][id(scf)]))
+                if inner is not None:
+                    nxt.__cause__ = inner
+                inner = nxt
             with lock:
                 keep.append(e)
                 ident[id(e)] = _err_id(cur['run'], cur['pos'][id(scf)])
                 cur['raised'].append(ident[id(e)])
+                x, lvl = inner, depth
+                while x is not None:
+                    keep.append(x)
+                    ident[id(x)] = 'inner-cause-level-%d-of-%d' % (lvl, ident[id(e)])
+                    x, lvl = x.__cause__, lvl - 1
+            if inner is not None and style == 'explicit':
+                raise e from inner
+            if inner is not None and style == 'implicit':
+                try:
+                    raise inner
+                except ValueError:
+                    raise e                                  # __context__ only, __cause__ stays None
             raise e
 
     swarms = [sw.Swarm(u, factory=F()) for u in case['swarms']]
@@ -843,7 +864,8 @@ def run_process(case):
     for r, run in enumerate(case['runs']):
         s = swarms[run['swarm']]
         members = list(s._cfs.values())
-        cur.update({'run': r, 'failing': set(run['failing']), 'pos': {id(m): k for k, m in enumerate(members)}, 'raised': []})
+        cur.update({'run': r, 'failing': set(run['failing']), 'pos': {id(m): k for k, m in enumerate(members)}, 'raised': [],
+                    'chain': run.get('chain')})
         live0 = set(threading.enumerate())
         try:
             if run['call'] == 'open_links':
@@ -919,6 +941,10 @@ def check_process(case, impl=None):
         if run['call'] == 'sequential':
             if o[1] != fail_pos[0]:
                 return fail('sequential_wrong_order_or_result', fail_pos[0], 'the first failing action\'s own error propagates')
+        elif isinstance(o[1], str) and o[1].startswith('inner-cause'):
+            return fail('chained_error_not_one_of_the_raised', 'one of %s' % own,
+                        'the report must be chained from an error OBJECT an action raised (identity of __cause__), not from '
+                        'the cause that error carries; observed: ' + o[1])
         elif o[1] not in own:
             return fail('chained_error_from_another_run', 'one of %s' % own,
                         'the report must be chained from one of the errors raised in THIS run (identity of __cause__); '
